@@ -44,4 +44,76 @@ theorem sliceFrom_AS (rest : List Char) : sliceFrom ('A' :: 'S' :: rest) 2 = som
   have hS : 'S'.utf8Size = 1 := by decide
   simp [sliceFrom, utf8Size, hA, hS]
 
+theorem checkedAdd_eq_some {w a b : Nat} (h : a + b < 2 ^ w) : checkedAdd w a b = some (a + b) := by
+  unfold checkedAdd; simp [h]
+
+theorem checkedAddSecs_eq_some {t d : Int} (h : minUtc ≤ t + d ∧ t + d ≤ maxUtc) :
+    checkedAddSecs t d = some (t + d) := by
+  unfold checkedAddSecs; rw [if_pos h]
+
+/-- Invariant of the paging loop. -/
+def PageInv (offset rows : Nat) (st : Page) : Prop :=
+  st.skipped ≤ st.total ∧ st.skipped ≤ offset ∧ (st.skipped < offset → st.total = st.skipped) ∧
+    st.taken = min (st.total - st.skipped) rows
+
+theorem pageStep_inv (offset rows : Nat) (st : Page) (hit : Bool)
+    (hinv : PageInv offset rows st) (hb : st.total + 1 < 2 ^ 64) :
+    ∃ st', pageStep offset rows st hit = some st' ∧ PageInv offset rows st' ∧
+      st.total ≤ st'.total ∧ st'.total ≤ st.total + 1 := by
+  obtain ⟨h1, h2, h3, h4⟩ := hinv
+  unfold pageStep
+  cases hit with
+  | false => exact ⟨st, by simp, ⟨h1, h2, h3, h4⟩, Nat.le_refl _, Nat.le_succ _⟩
+  | true =>
+    simp only [Bool.not_true, Bool.false_eq_true, if_false, checkedAdd_eq_some hb,
+      Option.bind_eq_bind, Option.bind_some]
+    by_cases hs : st.skipped < offset
+    · have hsk : st.skipped + 1 < 2 ^ 64 := by omega
+      simp only [hs, if_true, checkedAdd_eq_some hsk, Option.bind_some]
+      refine ⟨_, rfl, ⟨?_, ?_, ?_, ?_⟩, ?_, ?_⟩ <;> simp only <;> omega
+    · have hsub : st.skipped ≤ st.total + 1 := by omega
+      simp only [hs, if_false, checkedSub_eq_some hsub, Option.bind_some]
+      by_cases hd : st.total + 1 - st.skipped ≤ rows
+      · simp only [hd, if_true]
+        refine ⟨_, rfl, ⟨?_, ?_, ?_, ?_⟩, ?_, ?_⟩ <;> simp only <;> omega
+      · simp only [hd, if_false]
+        refine ⟨_, rfl, ⟨?_, ?_, ?_, ?_⟩, ?_, ?_⟩ <;> simp only <;> omega
+
+theorem pageLoop_inv (offset rows : Nat) (l : List Bool) (st : Page)
+    (hinv : PageInv offset rows st) (hb : st.total + l.length < 2 ^ 64) :
+    ∃ st', pageLoop offset rows st l = some st' ∧ PageInv offset rows st' ∧
+      st'.total ≤ st.total + l.length := by
+  induction l generalizing st with
+  | nil => exact ⟨st, rfl, hinv, by simp⟩
+  | cons h rest ih =>
+    simp only [List.length_cons] at hb
+    obtain ⟨st1, hs1, hi1, hle1, hle2⟩ := pageStep_inv offset rows st h hinv (by omega)
+    obtain ⟨st2, hs2, hi2, hle3⟩ := ih st1 hi1 (by omega)
+    refine ⟨st2, ?_, hi2, ?_⟩
+    · unfold pageLoop; rw [hs1]; exact hs2
+    · simp only [List.length_cons]; omega
+
+theorem countChecked_total {α} (p : α → Bool) (l : List α) (hb : l.length < 2 ^ 64) :
+    ∃ n, countChecked p l = some n ∧ n ≤ l.length := by
+  unfold countChecked
+  suffices H : ∀ (l : List α) (k : Nat), k + l.length < 2 ^ 64 →
+      ∃ n, l.foldl (fun acc x => acc.bind fun n => if p x then checkedAdd 64 n 1 else some n) (some k) = some n ∧
+        n ≤ k + l.length by
+    obtain ⟨n, h1, h2⟩ := H l 0 (by omega)
+    exact ⟨n, h1, by omega⟩
+  intro l
+  induction l with
+  | nil => intro k _; exact ⟨k, rfl, by simp⟩
+  | cons x rest ih =>
+    intro k hk
+    simp only [List.length_cons] at hk
+    simp only [List.foldl_cons, Option.bind_some]
+    by_cases hp : p x = true
+    · simp only [hp, if_true, checkedAdd_eq_some (show k + 1 < 2 ^ 64 by omega)]
+      obtain ⟨n, h1, h2⟩ := ih (k + 1) (by omega)
+      exact ⟨n, h1, by simp only [List.length_cons]; omega⟩
+    · simp only [hp, Bool.false_eq_true, if_false]
+      obtain ⟨n, h1, h2⟩ := ih k (by omega)
+      exact ⟨n, h1, by simp only [List.length_cons]; omega⟩
+
 end KM.Input
